@@ -7,6 +7,7 @@ in the model has no such case and the repaired `start_send` is total), only a pe
 is removed, and a peer that never fails is never removed. Request/reply half: second part (see there).
 -/
 import SeliumModel.Lemmas.PubSubHealthy
+import SeliumModel.Lemmas.ReqRepMore
 
 namespace Selium.Route
 open Selium.Sink
@@ -63,8 +64,44 @@ example : ((startSend 5 [({ id := 0, sendQ := [false] } : Child Nat), { id := 1 
 
 end Selium.Route
 
+
+/-! ## Request/reply half -/
+namespace Selium.Route
+open Selium.Sink
+
+/-- Polling the request/reply router never panics and always returns: from any state, for any frames and any
+    ready/pending/error behaviour of any peer, with enough fuel for the available work the outcome is one of the
+    five kinds of Pending or Ready. (The unrepaired router panicked on a failing replier sink and on
+    non-message frames, and did not return at all with only one side connected.) -/
+theorem c08_reqrep_always_returns (s : RR) : (rrPoll (rwork s + 1) s).1 ≠ .outOfFuel :=
+  rrPoll_terminates (rwork s + 1) s (Nat.lt_succ_self _)
+
+/-- A replier whose sink fails is simply unbound (so that another replier can bind): nothing of the requestors
+    is touched and the pending request is kept for the next replier. -/
+theorem c08_failed_replier_is_unbound (s : RR) (f : RFrame) (r : Replier) (hf : s.bufReq = some f)
+    (hr : s.server = some r) (he : r.sink.readyAns = .err) :
+    ∃ s', partA s = .next s' ∧ s'.server = none ∧ s'.bufReq = some f ∧ s'.sinks = s.sinks ∧ s'.streams = s.streams :=
+  partA_unbinds_failed_replier s f r hf hr he
+
+/-- Whatever some requestors' sinks and streams do (fail, stall, send garbage), every connected requestor has
+    been handed exactly the replies addressed to it and no reply taken from the replier is lost: the C02
+    invariant is preserved by every poll from every state satisfying it. -/
+theorem c08_requestors_isolated (fuel : Nat) (s : RR) (h : RepInv s) : RepInv (rrPoll fuel s).2 :=
+  rrPoll_rep fuel s h
+
+/-- A requestor sink that refuses a reply evicts only that requestor. -/
+theorem c08_failing_requestor_only_evicted (f : RFrame) (es : List (Child RFrame)) (cid : Nat) (g : RFrame)
+    (h : (routerSend f es).1 = .refused cid g) : (routerSend f es).2.1 = es.filter (·.id ≠ cid) :=
+  routerSend_refused f es cid g h
+
+end Selium.Route
+
 #print axioms Selium.Route.c08_fanout_poll_keeps_only_old
 #print axioms Selium.Route.c08_fanout_send_isolation
 #print axioms Selium.Route.c08_healthy_subscriber_survives
 #print axioms Selium.Route.c08_survivors_unharmed
 #print axioms Selium.Route.c08_pubsub_outcomes
+#print axioms Selium.Route.c08_reqrep_always_returns
+#print axioms Selium.Route.c08_failed_replier_is_unbound
+#print axioms Selium.Route.c08_requestors_isolated
+#print axioms Selium.Route.c08_failing_requestor_only_evicted
